@@ -32,6 +32,10 @@ type vxStore struct {
 	unconditional int
 	requests      int
 	before        func() // interference hook, runs before each request of the client under test
+	// noCondDelete: an S3-compatible store that answers a DeleteObject carrying
+	// If-Match with 501 NotImplemented (and does nothing)
+	noCondDelete bool
+	rejected     int
 }
 
 func (s *vxStore) fresh() string {
@@ -85,6 +89,10 @@ func (s *vxStore) DeleteObject(ctx context.Context, in *s3.DeleteObjectInput, _ 
 	if in.IfMatch == nil {
 		s.unconditional++
 	} else {
+		if s.noCondDelete {
+			s.rejected++
+			return nil, &smithy.GenericAPIError{Code: "NotImplemented", Message: "A header you provided implies functionality that is not implemented"}
+		}
 		if !s.present {
 			return nil, &smithy.GenericAPIError{Code: "NoSuchKey", Message: "not found"}
 		}
@@ -260,8 +268,14 @@ func VxC20Renew() {
 // VxC20Release: ReleaseLease by j.
 func VxC20Release() {
 	wd, l := vxNewWorld(true)
+	wd.st.noCondDelete = vx.Fault("storeRejectsConditionalDelete")
 	err := l.ReleaseLease(context.Background(), wd.j)
 	wd.after()
+	if wd.st.rejected > 0 {
+		// whatever the client makes of that answer (an error is fine: the record then
+		// stays until it expires), the witness's lease and the write discipline hold
+		return
+	}
 	if err != nil {
 		ok := errors.Is(err, litestream.ErrLeaseNotHeld) || errors.Is(err, ErrLeaseAlreadyReleased)
 		vx.Assert("release-error-is-not-held-or-gone", ok)
